@@ -14,7 +14,14 @@ what it handed over as soon as `add_data` has returned; every query reads the sa
 entitled to run (data, a free parameter, start inside a box with lb < ub) has to run to the end: an exception out of
 the optimiser is a violation, not an outcome.  `scipy.optimize.least_squares` is recorded, not modelled: the Lean model receives what the
 optimiser answered (it is a parameter of the model, assumed only to answer a point of its box; the harness asserts
-that contract on every call)."""
+that contract on every call).
+
+Private names of pylake: only two are touched, each only while it is reachable, and each next to a public twin that
+carries the observation alone when the name is gone - `Model._calculate_jacobian` (Jacobian probe; twin: the Jacobian
+`fit.fit()` hands to its optimiser, `public_jacobian`) and the helpers `detail.utilities.unique` /
+`fitting.detail.utilities.unique_idx` (op `unique`; twin: `fit.params` order and the grouping of `fit[model].
+conditions()` of a one-parameter model, `unique_public`).  Everything else goes by public names: `Model.defaults`
+(not `_params`), `Fit.sigma` for the residual vector the fit evaluates (not `Fit._calculate_residual`)."""
 import json
 import math
 import struct
@@ -101,6 +108,7 @@ TRUSTED = [
     "scipy.optimize.least_squares is a PARAMETER of the model (recorded per call and replayed to the Lean model); the only assumption the theorems use (OptInBox: the answer lies in the box passed to it) is asserted by the oracle on every recorded call",
     "the standard-error computation after the write-back (Fit.cov, sigma) is outside the model; an exception raised there is recorded as '!post' and not compared with the model (in the recovery stream the oracle still reports it: those fits have to return)",
     "Python str() of a numeric override is sent to the model verbatim (the code builds condition strings from it)",
+    "the Jacobian probe reads the model's private `_calculate_jacobian` while that name exists and, always, the Jacobian the public fit() hands to scipy.optimize.least_squares: for one fit() call, left by an exception of the stand-in optimiser before the write-back, every parameter is freed and unboxed and then given back its value, bounds and flag; `scipy.optimize.least_squares` is looked up by the library at call time (as the recorder of the fits assumes too)",
     "the samples of a dataset travel to the model as the bit patterns of the doubles in the case (NaN entries as 0 next to the NaN masks); the model treats them as opaque values",
 ]
 ASSUMPTIONS = [
@@ -289,7 +297,10 @@ def observe(fit, models, strict=True):
     # ... and how long the residual vector is that the fit evaluates NOW (one entry per valid point of every dataset
     # that has been added so far: a dataset that is not in it is not seen by the fit)
     try:
-        nres = "R" + str(len(fit._calculate_residual()))
+        # PUBLIC route (`Fit._calculate_residual` is private and not an anchor of the property): `Fit.sigma` answers one
+        # entry per entry of the residual vector the fit evaluates at its current parameter values (it evaluates that
+        # vector once, which is also what makes the toy model functions report their arguments)
+        nres = "R" + str(len(fit.sigma))
         for x, params in _CALLS:
             seen.setdefault(id(x), []).append(list(params))
     except Exception as e:
@@ -332,21 +343,92 @@ def observe(fit, models, strict=True):
     return T + " L" + "".join(per) + " D" + "".join(held) + " " + nres
 
 
+class _ProbeDone(Exception):
+    """raised by the stand-in optimiser of `public_jacobian` to leave `fit()` before anything is written back"""
+
+
+def public_jacobian(fit):
+    """The Jacobian the fit hands to its optimiser, over ALL parameters of the table, by public names only: for the
+    moment of ONE `fit.fit()` every parameter is freed and unboxed (so that the fit is entitled to run whatever the
+    table says and every column is a fitted one), `scipy.optimize.least_squares` is a stand-in that evaluates the
+    `jac` callable it is given at the start point it is given and leaves by an exception before anything is written
+    back; value, bounds and fixed flag of every parameter are then put back (the same objects).  None when the fit
+    does not reach its optimiser (no data) or hands it no analytic Jacobian (a model without one: '2-point')."""
+    import scipy.optimize
+
+    P = fit.params
+    saved = [(p, p.value, p.lower_bound, p.upper_bound, p.fixed) for _, p in P.items()]
+    orig = scipy.optimize.least_squares
+    got = {}
+
+    def stand_in(fun, x0, *a, **kw):
+        jac = kw.get("jac", a[0] if a else None)
+        got["J"] = np.array(jac(np.array(x0, dtype=np.float64)), dtype=np.float64) if callable(jac) else None
+        raise _ProbeDone()
+
+    try:
+        for p, *_ in saved:
+            p.fixed, p.lower_bound, p.upper_bound = False, -np.inf, np.inf
+        scipy.optimize.least_squares = stand_in
+        try:
+            fit.fit()
+        except _ProbeDone:
+            pass
+        except (RuntimeError, ValueError):
+            return None  # nothing to fit: the optimiser is not reached
+    finally:
+        scipy.optimize.least_squares = orig
+        for p, v, lo, hi, fx in saved:
+            p.value, p.lower_bound, p.upper_bound, p.fixed = v, lo, hi, fx
+    J = got.get("J")
+    return J if J is not None and J.ndim == 2 and J.shape[1] == len(saved) else None
+
+
+PRIVATE_TIES = {"Model._calculate_jacobian": 0, "Model._calculate_jacobian:gone": 0, "jacobian-through-fit()": 0,
+                "jacobian-through-fit():unavailable": 0, "unique/unique_idx helpers": 0, "unique/unique_idx helpers:gone": 0}
+
+
 def jac_probe(fit, models, mi, name, sens_x):
-    """first row of dataset `name` in the model's block of the global Jacobian"""
+    """first row of dataset `name` in the model's block of the global Jacobian.  Two routes: the model's private
+    `_calculate_jacobian` (the scatter of finding C14-C lives there) while it is reachable under that name, and the
+    Jacobian the public `fit.fit()` hands to its optimiser (`public_jacobian`); both are read whenever they exist
+    and have to show the same row - either of them alone keeps the probe alive, 'J:?' (ignored by `agree` and the
+    oracle) only when neither can be had."""
     m = models[mi]
     ds = fit[m]
     P = fit.params
-    J = m._calculate_jacobian(ds, P.values)
+    priv = getattr(m, "_calculate_jacobian", None)  # private name: observed only while it is there
+    Jm = None
+    if priv is not None:
+        try:
+            Jm = priv(ds, P.values)
+        except TypeError as e:
+            if e.__traceback__ is None or e.__traceback__.tb_next is not None:
+                raise  # raised inside the library
+            priv = None  # the call itself did not bind: the private signature is not the one of today
+    PRIVATE_TIES["Model._calculate_jacobian" + ("" if priv is not None else ":gone")] += 1
     row = 0
+    found = None
     for cond, dl in ds.conditions():
         for d in dl:
-            if d.name == name:
-                if len(d.x) == 0:
-                    return "J:missing"
-                return "J" + ratlist(J[row, :])
+            if found is None and d.name == name:
+                found = (row, len(d.x))
             row += len(d.x)
-    return "J:missing"
+    if found is None or found[1] == 0:
+        return "J:missing"
+    Jf = public_jacobian(fit)
+    PRIVATE_TIES["jacobian-through-fit()" + ("" if Jf is not None else ":unavailable")] += 1
+    a = None if Jm is None else ratlist(Jm[found[0], :])
+    b = None
+    if Jf is not None:
+        # the fit stacks the blocks of its models in the order they were given to it
+        off = sum(int(fit[m2].n_residuals) for m2 in models[:mi])
+        b = ratlist(Jf[off + found[0], :])
+    if a is None and b is None:
+        return "J:?"
+    if a is not None and b is not None and a != b:
+        return f"J:the-model's-block-{a}-is-not-what-fit()-hands-to-its-optimiser-{b}"
+    return "J" + (a if a is not None else b)
 
 
 HANDS = ["fresh", "buffer", "list", "strided"]
@@ -410,7 +492,7 @@ def run_script(case):
     caller = Caller(case)
     obs = []
     fits = []
-    mtab = [[(k, None if p is None else (p.value, p.lower_bound, p.upper_bound, bool(p.fixed))) for k, p in m._params.items()] for m in models]
+    mtab = [[(k, None if p is None else (p.value, p.lower_bound, p.upper_bound, bool(p.fixed))) for k, p in m.defaults.items()] for m in models]  # `Model.defaults`: the public view of the model's parameter table
     for act in case["actions"]:
         a = act["a"]
         if a == "add":
@@ -478,17 +560,55 @@ def run_script(case):
     return obs, fits, mtab
 
 
+def _show_unique(u, inv):
+    return "[" + ",".join(showstr(s) for s in u) + "] [" + ",".join(str(int(i)) for i in inv) + "]"
+
+
+def unique_private(names):
+    """the two private de-duplication helpers called directly - only while they can be had under the module paths
+    and names they have today (private bookkeeping: a refactoring may move, rename or inline them); None otherwise"""
+    try:
+        from lumicks.pylake.detail.utilities import unique
+        from lumicks.pylake.fitting.detail.utilities import unique_idx
+    except (ImportError, AttributeError):
+        return None
+    u = unique(list(names))
+    u2, inv = unique_idx(list(names))
+    if u != u2:
+        return "unique-and-unique_idx-differ"
+    return _show_unique(u, inv)
+
+
+def unique_public(names):
+    """the same two de-duplications where a user meets them: a one-parameter model with one dataset per entry of
+    `names`, the i-th dataset mapping the parameter to names[i].  `fit.params` lists the names in order of first
+    occurrence (Fit._build_fit: the global parameter list), the conditions of the model group the datasets by
+    name in order of first occurrence (generate_conditions: the inverse indices)."""
+    import lumicks.pylake as lk
+    from lumicks.pylake.fitting.model import Model
+
+    m = Model("U", lambda x, a: a + 0.0 * x)
+    fit = lk.FdFit(m)
+    for i, n in enumerate(names):
+        fit[m].add_data(f"d{i}", [0.0, 1.0], [0.0, 1.0], params={"U/a": n})
+    u = [k for k, _ in fit.params.items()]
+    groups = [[int(d.name[1:]) for d in dl] for _, dl in fit[m].conditions()]
+    u2 = [names[g[0]] for g in groups]
+    inv = {i: gi for gi, g in enumerate(groups) for i in g}
+    if u != u2 or sorted(inv) != list(range(len(names))):
+        return "unique-and-unique_idx-differ"
+    return _show_unique(u, [inv[i] for i in range(len(names))])
+
+
 def impl(case):
     warnings.filterwarnings("ignore")  # NumPy/SciPy RuntimeWarnings of degenerate toy fits are not observations
     if case["op"] == "unique":
-        from lumicks.pylake.detail.utilities import unique
-        from lumicks.pylake.fitting.detail.utilities import unique_idx
-
-        u = unique(list(case["names"]))
-        u2, inv = unique_idx(list(case["names"]))
-        if u != u2:
-            return ["unique-and-unique_idx-differ"]
-        return ["[" + ",".join(showstr(s) for s in u) + "] [" + ",".join(str(int(i)) for i in inv) + "]"]
+        pub = unique_public(list(case["names"]))
+        prv = unique_private(list(case["names"]))
+        PRIVATE_TIES["unique/unique_idx helpers" + ("" if prv is not None else ":gone")] += 1
+        if prv is not None and prv != pub:
+            return [f"helpers-say-{prv}-the-fit-says-{pub}"]
+        return [pub]
     obs, fits, mtab = run_script(case)
     _CACHE[_key(case)] = (fits, mtab)
     return [";".join(obs)]
@@ -566,6 +686,8 @@ def _obs_agree(io, mo):
     correspondence, says which one the property wants)"""
     if io.startswith("fit:ok") and "!post:" in io:
         io = io.split("!post:")[0]
+    if io == "J:?":
+        return True  # the probe could not be made by any route (private name gone, no analytic Jacobian in the fit): not an answer
     if mo.startswith("J[") and "!" in mo:
         a, b = mo.split("!")
         return io == a or io == "J" + b
@@ -1357,7 +1479,7 @@ def recover_case(rng, slow_ok=False):
         m, name = mods[mi], specs[mi]["name"]
         ov = {}
         local = {}
-        for n, p in m._params.items():
+        for n, p in m.defaults.items():
             base = n.split("/")[-1]
             tgt = n
             if base == "Lc" and (k > 0 and rng.chance(0.6)):
@@ -1557,6 +1679,7 @@ def extra_coverage(results):
         "scripts_where_the_repaired_variant_differs": variants_differ,
         "variant_the_implementation_followed": dict(VARIANT),
         "counts": dict(COUNTS),
+        "private_ties": dict(PRIVATE_TIES),
         "recovery_exploration": recover,
         "exhaustive": False,
         "exhaustive_note": "the small-scope stream enumerates its finite space completely; the random and recovery streams do not; recovery of generating parameters is exploration, not proof",
